@@ -321,6 +321,10 @@ def main(harness_name, argv=None):
     deadline = t0 + budget
     core.patch_environment()
     H.setup()
+    if not getattr(H, "NO_NP_PREDICATES", False):
+        from symx import stubs as _stubs
+
+        _stubs.install_np_predicates()
     pre = H.prechecks() if hasattr(H, "prechecks") else {"ok": True, "items": []}
     jobs = H.jobs(args.tier, seed)
     if args.only:
